@@ -45,6 +45,8 @@ def progs_get():
     # repeated static names: each one is a statement of its own
     out.append([("_HEADER", b"Accept: a"), ("_HEADER", b"Accept: b"), ("_PARAMETER", b"id=first"), ("_PARAMETER", b"id=second"), ("BUILD", 0), ("BASE64", None), ("HEADER", b"Cookie")])
     out.append([("_HEADER", b"X: 1"), ("_HOSTHEADER", b"Host: h"), ("_HEADER", b"X: 1"), ("BUILD", 0), ("PRINT", None)])
+    # the name ends at the first ": "; everything after it is the value - leading blanks, further colons and all
+    out.append([("_HEADER", b"X-Lead:  two"), ("_HEADER", b"X-Tab: \tv"), ("_HEADER", b"Na:me: v"), ("_HEADER", b"X-C: a: b"), ("_HOSTHEADER", b"Host: h:8080"), ("BUILD", 0), ("BASE64", None), ("HEADER", b"Cookie")])
     return out
 
 
@@ -53,6 +55,7 @@ def progs_post():
     for arg in HOSTILE:
         out.append([("BUILD", 0), ("APPEND", arg), ("PARAMETER", b"id"), ("BUILD", 1), ("PREPEND", arg), ("MASK", None), ("PRINT", None)])
     out.append([("_HEADER", b"A: 1"), ("_HEADER", b"A: 2"), ("_PARAMETER", b"p=1"), ("_PARAMETER", b"p=2"), ("BUILD", 0), ("PARAMETER", b"id"), ("BUILD", 1), ("PRINT", None)])
+    out.append([("_HEADER", b"X-Lead:  two"), ("_HEADER", b"Na:me: v"), ("_PARAMETER", b"p= v"), ("BUILD", 0), ("PARAMETER", b"id"), ("BUILD", 1), ("PRINT", None)])
     out.append([("_HEADER", b"Content-Type: text/plain"), ("_PARAMETER", b"a=b=c"), ("BUILD", 0), ("NETBIOS", None), ("HEADER", b"X-Id"), ("BUILD", 1), ("BASE64URL", None), ("URI_APPEND", None)])
     return out
 
